@@ -616,8 +616,8 @@ func (tt *TermTable) Bin(op Op, a, b *Term) *Term {
 		}
 	}
 	t := tt.mk(op, a.sort, 0, "", a, b)
-	if op == OpMul && b.IsConst() && b.c < 1<<16 {
-		// small-constant multiplies are easy for bit-blasting
+	if op == OpMul && b.IsConst() {
+		// multiplication by a constant alone is shift-and-add for the bit-blaster (only division kernels go to the integer back end)
 		if !a.hard {
 			t.hard = false
 		}
